@@ -1532,6 +1532,68 @@ impl Default for Terminal {
     }
 }
 
+#[cfg(avt_verif)]
+impl SavedCtx {
+    fn verif_state(&self, out: &mut String) {
+        out.push_str(&format!("{} {} ", self.cursor_col, self.cursor_row));
+        self.pen.verif_state(out);
+
+        out.push_str(&format!(
+            "{} {} ",
+            self.origin_mode as u8, self.auto_wrap_mode as u8
+        ));
+    }
+}
+
+#[cfg(avt_verif)]
+impl Terminal {
+    // verification hook: every private field in a canonical token format
+    pub(crate) fn verif_state(&self, out: &mut String) {
+        out.push_str(&format!(
+            "{} {} {} {} ",
+            self.cols,
+            self.rows,
+            (self.active_buffer_type == BufferType::Alternate) as u8,
+            self.scrollback_limit.map_or(-1, |l| l as i128),
+        ));
+
+        out.push_str(&format!(
+            "{} {} {} ",
+            self.cursor.col, self.cursor.row, self.cursor.visible as u8
+        ));
+
+        self.pen.verif_state(out);
+
+        out.push_str(&format!(
+            "{} {} {} ",
+            (self.charsets[0] == Charset::Drawing) as u8,
+            (self.charsets[1] == Charset::Drawing) as u8,
+            self.active_charset
+        ));
+
+        self.tabs.verif_state(out);
+
+        out.push_str(&format!(
+            "{} {} {} {} {} {} {} {} {} ",
+            self.insert_mode as u8,
+            self.origin_mode as u8,
+            self.auto_wrap_mode as u8,
+            self.new_line_mode as u8,
+            (self.cursor_keys_mode == CursorKeysMode::Application) as u8,
+            self.pending_wrap as u8,
+            self.top_margin,
+            self.bottom_margin,
+            self.xtwinops as u8
+        ));
+
+        self.saved_ctx.verif_state(out);
+        self.alternate_saved_ctx.verif_state(out);
+        self.dirty_lines.verif_state(out);
+        self.buffer.verif_state(out);
+        self.other_buffer.verif_state(out);
+    }
+}
+
 #[cfg(test)]
 mod tests {
     use super::Terminal;
